@@ -19,44 +19,44 @@ PLAN = {
         part("api", "TestC01API", (400, 4000), (8, 16)),
         part("cli", "TestC01CLI", (25, 300), (8, 16)),
     ],
-    "C02": [part("cli", "TestC02", (40, 900), (16, 16), steps=30)],
-    "C03": [part("cli", "TestC03", (40, 900), (16, 16), steps=30)],
-    "C04": [part("cli", "TestC04", (60, 1200), (16, 16), steps=25)],
+    "C02": [part("cli", "TestC02", (70, 900), (16, 16), steps=30)],
+    "C03": [part("cli", "TestC03", (70, 900), (16, 16), steps=30)],
+    "C04": [part("cli", "TestC04", (90, 1200), (16, 16), steps=25)],
     "C05": [
-        part("cli", "TestC05", (120, 2500), (8, 16)),
-        part("cli", "TestC05Histories", (30, 500), (8, 16), steps=30),
+        part("cli", "TestC05", (150, 1200), (8, 16)),
+        part("cli", "TestC05Histories", (50, 500), (8, 16), steps=30),
         part("api", "TestC05API", (1500, 40000), (2, 8)),
     ],
     "C06": [
         part("api", "TestC06Exhaustive", (1, 1), (16, 16)),
         part("api", "TestC06Large", (150, 3000), (2, 8)),
-        part("cli", "TestC06CLI", (30, 800), (8, 16), steps=30),
+        part("cli", "TestC06CLI", (50, 800), (8, 16), steps=30),
     ],
-    "C07": [part("cli", "TestC07", (40, 900), (16, 16), steps=25)],
-    "C08": [part("cli", "TestC08", (40, 900), (16, 16), steps=30)],
-    "C09": [part("cli", "TestC09", (40, 900), (16, 16), steps=25)],
+    "C07": [part("cli", "TestC07", (70, 900), (16, 16), steps=25)],
+    "C08": [part("cli", "TestC08", (70, 900), (16, 16), steps=30)],
+    "C09": [part("cli", "TestC09", (70, 900), (16, 16), steps=25)],
     "C10": [
         part("cli", "TestC10Exhaustive", (1, 1), (8, 16)),
-        part("cli", "TestC10", (25, 600), (8, 16), steps=30),
+        part("cli", "TestC10", (40, 600), (8, 16), steps=30),
         part("api", "TestC10API", (1000, 30000), (2, 8)),
     ],
-    "C11": [part("cli", "TestC11", (30, 800), (16, 16), steps=30)],
+    "C11": [part("cli", "TestC11", (50, 800), (16, 16), steps=30)],
     "C12": [
         part("api", "TestC12API", (1500, 40000), (4, 16)),
-        part("cli", "TestC12CLI", (30, 1500), (4, 16)),
+        part("cli", "TestC12CLI", (40, 800), (8, 16)),
     ],
-    "C13": [part("cli", "TestC13", (40, 900), (16, 16), steps=25)],
-    "C14": [part("cli", "TestC14", (30, 400), (16, 16), steps={Q: 25, T: 60})],
+    "C13": [part("cli", "TestC13", (70, 900), (16, 16), steps=25)],
+    "C14": [part("cli", "TestC14", (45, 400), (16, 16), steps={Q: 25, T: 60})],
     "C15": [
         part("cli", "TestC15Corpus", (1, 1), (16, 16), shim=True),
-        part("cli", "TestC15Random", (6, 200), (16, 16), shim=True, tiers=(T,)),
+        part("cli", "TestC15Random", (3, 120), (16, 16), shim=True),
     ],
     "C16": [
         part("cli", "TestC16Corpus", (1, 1), (16, 16), shim=True),
-        part("cli", "TestC16Random", (6, 200), (16, 16), shim=True, tiers=(T,)),
+        part("cli", "TestC16Random", (3, 120), (16, 16), shim=True),
     ],
-    "C17": [part("cli", "TestC17", (40, 900), (16, 16), steps=30)],
-    "C18": [part("cli", "TestC18", (50, 1500), (16, 16), steps={Q: 30, T: 40})],
+    "C17": [part("cli", "TestC17", (70, 900), (16, 16), steps=30)],
+    "C18": [part("cli", "TestC18", (80, 1500), (16, 16), steps={Q: 30, T: 40})],
     "C19": [
         part("api", "TestC19Mutations", (1, 1), (1, 1)),
         part("api", "TestC19Random", (6000, 100000), (4, 16)),
@@ -64,7 +64,7 @@ PLAN = {
     ] + [fuzzpart("api", t, "25s") for t in (
         "FuzzC19ObjectContent", "FuzzC19Object", "FuzzC19Tree", "FuzzC19Commit", "FuzzC19Index", "FuzzC19Head",
         "FuzzC19Branch", "FuzzC19Config", "FuzzC19Reflog", "FuzzC19Hash", "FuzzC19NullStr")],
-    "C20": [part("cli", "TestC20", (60, 1200), (16, 16), steps=15)],
+    "C20": [part("cli", "TestC20", (90, 1200), (16, 16), steps=15)],
 }
 
 LEVEL = {"C15": "fault_enumeration", "C16": "fault_enumeration"}
